@@ -64,6 +64,8 @@ ASSUMPTIONS = [
 TOL = (1e-9, 1e-9)
 TOL_CG = (1e-4, 1e-4)      # linear_operator's linear_cg stops updating once p^T A p < eps = 1e-10: measured floor 1e-6 .. 6e-5 on this lattice
 TOL_JIT = (1e-5, 1e-5)     # fast_pred_samples: Cholesky root of a numerically singular matrix with the documented jitter (1e-8 .. 1e-6)
+TOL_CG_WISKI = (2e-3, 2e-3)  # WISKI caches built from CG solves and updated twice (fantasy of a fantasy): the CG floor above is amplified by
+#                            the jittered root of the rank-deficient W D^-1 W^T; measured 3.1e-4 in one cell of the quick lattice (Cholesky path of the same cell: 2e-7)
 TOL_WISKI = (1e-6, 1e-6)   # WISKI caches: jittered Cholesky root of the rank-deficient W D^-1 W^T (measured 1e-9 .. 2e-7)
 
 
@@ -106,7 +108,7 @@ def apply_settings(spec):
 def tol_for(spec, what=""):
     on = spec.split("+")
     if "cg" in on:
-        return TOL_CG
+        return TOL_CG_WISKI if what == "kiss-fantasy" else TOL_CG
     if what.startswith("kiss") and "fps" in on:
         return TOL_JIT
     if what == "kiss-fantasy":
